@@ -424,6 +424,7 @@ Inductive mop :=
 | MXferAppend (ids : list byte) | MXferAppendFrom (ids : list byte)
 | MSetSize (n : N) | MWithContext (c : option N)
 | MReset
+| MPack                                               (* Proto.Pack with the default protocol: the bytes transmitted *)
 | MGetters.                                           (* read every getter *)
 
 Definition vstatus (s : option status) : val :=
@@ -442,6 +443,66 @@ Definition v_amsg (a : amsg) : val :=
       vtag (am_new_body_func a); VB (am_xfer_ids a); vtag (am_ctx a); VN (am_size a)].
 
 Variable size_limit : N.                               (* socket.MessageSizeLimit() *)
+(* OnPack of the registered filter with this id; None = the filter returned an error *)
+Variable filter_pack : byte -> bytes -> option bytes.
+
+(* strconv.FormatInt for base 10 and 36 *)
+Definition digit_char (d : N) : byte := n2b (if (d <? 10)%N then 48 + d else 87 + d)%N.
+Fixpoint digits_fuel (fuel : nat) (base n : N) (acc : bytes) : bytes :=
+  match fuel with
+  | O => acc
+  | S f => if (n <? base)%N then digit_char n :: acc
+           else digits_fuel f base (n / base)%N (digit_char (n mod base)%N :: acc)
+  end.
+Definition format_int (base : N) (z : Z) : bytes :=
+  let mag := Z.to_N (Z.abs z) in
+  let d := digits_fuel (S (N.to_nat (N.log2 mag))) base mag [] in
+  if (z <? 0)%Z then "-"%byte :: d else d.
+
+(* goutil/status Status.EncodeQuery (non-nil receiver) *)
+Definition status_query (s : status) : bytes :=
+  str "code=" ++ format_int 10 (st_code s)
+  ++ (if is_nil (st_msg s) then [] else str "&msg=" ++ quote (st_msg s))
+  ++ (match st_cause s with None => [] | Some c => str "&cause=" ++ quote c end).
+
+(* message.MarshalBody: nil and byte streams pass through; any other object needs the codec
+   registered under bodyCodec - the harness only uses unregistered ids, so that is an error *)
+Definition marshal_body (b : body) : option bytes :=
+  match b with BodyNil => Some [] | BodyBytes x => Some x | BodyObj _ => None end.
+
+(* XferPipe.OnPack: i from Len-1 down to 0 *)
+Fixpoint pipe_on_pack (ids : list byte) (d : bytes) : option bytes :=
+  match ids with
+  | [] => Some d
+  | id :: r => match pipe_on_pack r d with Some d' => filter_pack id d' | None => None end
+  end.
+
+(* socket/protocol.go rawProto.Pack: the frame, or None when Pack returns an error; and the
+   message as Pack leaves it (status auto-created, meta.buf rewritten, size set) *)
+Definition pack_raw (m : message) : message * option bytes :=
+  let seqs := format_int 36 (m_seq m) in
+  if Nat.ltb 255 (length (m_service_method m)) then (m, None) else
+  let st := match m_status m with None => status_zero | Some s => s end in
+  let stq := status_query st in
+  let '(meta', mq) := args_query (m_meta m) in
+  let m1 := mkMsg (m_service_method m) (Some st) meta' (m_body m) (m_new_body_func m) (m_xfer_pipe m)
+                  (m_ctx m) (m_size m) (m_seq m) (m_mtype m) (m_body_codec m) in
+  let header := n2b (blen seqs) :: seqs ++ m_mtype m :: n2b (blen (m_service_method m)) :: m_service_method m
+                ++ be_of_N 2 (blen stq) ++ stq ++ be_of_N 2 (blen mq) ++ mq in
+  match marshal_body (m_body m) with
+  | None => (m1, None)
+  | Some bb =>
+      let ids := vis (m_xfer_pipe m) in
+      match pipe_on_pack ids (header ++ m_body_codec m :: bb) with
+      | None => (m1, None)
+      | Some payload =>
+          let total := (5 + blen ids + blen payload)%N in
+          if N.ltb size_limit total then (m1, None)
+          else (mkMsg (m_service_method m) (Some st) meta' (m_body m) (m_new_body_func m) (m_xfer_pipe m)
+                      (m_ctx m) total (m_seq m) (m_mtype m) (m_body_codec m),
+                Some (be_of_N 4 total ++ n2b (blen ids) :: ids ++ payload))
+      end
+  end.
 
 Definition with_meta (m : message) (a : args) : message :=
   mkMsg (m_service_method m) (m_status m) a (m_body m) (m_new_body_func m) (m_xfer_pipe m)
@@ -481,6 +542,8 @@ Definition msg_step (m : message) (o : mop) : res (message * list val) :=
   | MWithContext c => Ok (mkMsg (m_service_method m) (m_status m) (m_meta m) (m_body m) (m_new_body_func m)
                          (m_xfer_pipe m) c (m_size m) (m_seq m) (m_mtype m) (m_body_codec m), [])
   | MReset => Ok (msg_reset m, [])
+  | MPack => let '(m', fr) := pack_raw m in
+             Ok (m', [match fr with Some f => VB f | None => vsym "err" end])
   | MGetters => Ok (m, [v_amsg (abs_msg m)])
   end.
 
